@@ -153,7 +153,10 @@ impl<'a> TryFrom<&'a str> for Header<'a> {
             None => input.len(),
         };
 
-        parse_header(&input[..length])
+        // The byte after the `\r` may be the start of a multi-byte character.
+        let header = input.get(..length).ok_or(ParseError::InvalidSuffix)?;
+
+        parse_header(header)
     }
 }
 
